@@ -45,6 +45,7 @@ type Workload struct {
 	GMP     int     `json:"gomaxprocs"`
 	Warm    bool    `json:"warm"`     // read every row once before the clients start (fills caches)
 	ColKeys bool    `json:"col_keys"` // api level: index with column keys
+	RowKeys bool    `json:"row_keys"` // api level: fields with row keys; the workload's clients make the FIRST use of the keys
 	Reps    int     `json:"reps,omitempty"`
 	Corrupt bool    `json:"corrupt,omitempty"` // binding self-test: falsify one recorded result
 }
@@ -202,6 +203,45 @@ func genOp(rng *rand.Rand, w *Workload) Op {
 		o.Pre = 2 + rng.Intn(4)
 	}
 	return o
+}
+
+// GenerateKeyed builds a workload on fields with row keys. Nothing is written before the
+// clients start, so the row keys are new when the clients use them: every client begins,
+// without delay, with a bulk import that names both keys (next to a ballast of already
+// known keys, which keeps the translation's read phase busy long enough for the clients
+// to overlap in it). Sequentially each distinct key has one id, so the model is the same:
+// a row is the set of columns set under its key.
+func GenerateKeyed(seed int64, idx int) *Workload {
+	rng := rand.New(rand.NewSource(seed*1000003 + int64(idx)*7919 + 770003))
+	w := &Workload{Idx: idx, Seed: seed, Mode: "lin", Level: "api", RowKeys: true}
+	w.NF = 1 + rng.Intn(2)
+	w.Profile = rng.Intn(len(colProfiles) * len(rowProfiles))
+	w.Cache = []string{"ranked", "lru"}[rng.Intn(2)]
+	w.ColKeys = rng.Intn(3) == 0
+	w.GMP = []int{2, 4, 8}[rng.Intn(3)]
+	w.Init = [][]int{{}, {}}
+	ng := 2 + rng.Intn(3)
+	for g := 0; g < ng; g++ {
+		first := Op{Op: "ImportSet", F: 0, R: -1, C: -1, Path: "bulk", S: []int{code(0, rng.Intn(nCols)), code(1, rng.Intn(nCols))}}
+		sort.Ints(first.S)
+		ops := []Op{first}
+		for k := 0; k < 1+rng.Intn(3); k++ {
+			o := genOp(rng, w)
+			switch o.Op {
+			case "TopN":
+				o = Op{Op: "Row", F: o.F, R: rng.Intn(nRows), C: -1, S: []int{}}
+			case "SetRow":
+				// Store into a row addressed by key is not supported by this executor
+				o = Op{Op: "SetBit", F: o.F, R: o.R, C: rng.Intn(nCols), S: []int{}}
+			}
+			if o.Path == "roaring" {
+				o.Path = "bulk"
+			}
+			ops = append(ops, o)
+		}
+		w.Procs = append(w.Procs, ops)
+	}
+	return w
 }
 
 // Generate builds workload idx of a run deterministically from the seed.
